@@ -635,7 +635,10 @@ impl TransportManager {
             Protocol::Tcp(_) => match protocol_stack.next() {
                 #[cfg(feature = "websocket")]
                 Some(Protocol::Ws(_)) | Some(Protocol::Wss(_)) => SupportedTransport::WebSocket,
-                Some(Protocol::P2p(_)) => SupportedTransport::Tcp,
+                // The peer ID must be the last component: the transport authenticates the peer
+                // named right after the port, the manager tracks the one named last.
+                Some(Protocol::P2p(_)) if protocol_stack.next().is_none() =>
+                    SupportedTransport::Tcp,
                 _ =>
                     return Err(Error::TransportNotSupported(
                         address_record.address().clone(),
